@@ -12,7 +12,7 @@ ENGINE = {'name': 'listener',
  'serves': ['C13'],
  'rule': 'scenarios: a fixed scenario with one connection per multi-matcher route, two fixed overlap scenarios (4 fall-through connections on one P, accepted at once, read late; once with a first prefetch that fills the pooled chunk exactly) plus VERIF_N random '
          'scenarios of 2..10 connections over 11 connection kinds (fall through; fall through after a non-terminal handler consumed 5 bytes; '
-         'fall through with a TLS state attached; fall through after matcher sets of 2-3 matchers whose first matcher reads the stream (set not matching / matching with a non-terminal handler that consumes nothing / a prefix); fall through with 3000+ bytes prefetched; consumed by a terminal route; consumed and still being served when the listener is closed; rejected by a handler; '
+         'fall through with a TLS state attached; fall through after matcher sets of 2-3 matchers whose first matcher reads the stream (set not matching / matching with a non-terminal handler that consumes nothing / a prefix); fall through with 3000+ bytes prefetched; fall through after a matcher stayed undecided until the matching buffer was nearly full (streams beyond MaxMatchingBytes in segments not aligned with the prefetch chunk); matched by a non-terminal route and then silent while later routes need more bytes; consumed by a terminal route; consumed and still being served when the listener is closed; rejected by a handler; '
          'matcher error; matching timeout; client hang-up while matching), streams of 1..4500 bytes in 1..40 segments, GOMAXPROCS (= connChan '
          'capacity) in {1,2,4,16}, Accept delayed 0..8 ms (slow consumer), accepted connections read at once or only after every other connection '
          'went through the wrapper, 0..3 temporary accept errors, Close after k Accept results / at a random instant / at the end; the consumer stops calling Accept at the first ErrClosed (which has to come within 2 s of Close although consumed connections are still active) and the wrapper then has to shut down by itself; a case is '
